@@ -455,12 +455,17 @@ func (t *ZeroAllocTokenizer) TokenizeHtmlPreserving() ([]Token, error) {
 		var endTagType int
 		var endTagLength int
 
+		closePos := -1 // where the tag ends, if the expression-aware search found it
 		if tagType == TOKEN_VAR_START || tagType == TOKEN_VAR_START_TRIM {
 			// Look for "}}" or "-}}"
 			endPos1 := strings.Index(t.source[t.position:], "}}")
 			endPos2 := strings.Index(t.source[t.position:], "-}}")
 
-			if endPos1 != -1 && (endPos2 == -1 || endPos1 < endPos2) {
+			if p := findTagClose(t.source[t.position:], '}'); p > 0 && t.source[t.position+p-1] == '-' {
+				endTag, endTagType, endTagLength, closePos = "-}}", TOKEN_VAR_END_TRIM, 3, p-1
+			} else if p >= 0 {
+				endTag, endTagType, endTagLength, closePos = "}}", TOKEN_VAR_END, 2, p
+			} else if endPos1 != -1 && (endPos2 == -1 || endPos1 < endPos2) {
 				endTag = "}}"
 				endTagType = TOKEN_VAR_END
 				endTagLength = 2
@@ -476,7 +481,11 @@ func (t *ZeroAllocTokenizer) TokenizeHtmlPreserving() ([]Token, error) {
 			endPos1 := strings.Index(t.source[t.position:], "%}")
 			endPos2 := strings.Index(t.source[t.position:], "-%}")
 
-			if endPos1 != -1 && (endPos2 == -1 || endPos1 < endPos2) {
+			if p := findTagClose(t.source[t.position:], '%'); p > 0 && t.source[t.position+p-1] == '-' {
+				endTag, endTagType, endTagLength, closePos = "-%}", TOKEN_BLOCK_END_TRIM, 3, p-1
+			} else if p >= 0 {
+				endTag, endTagType, endTagLength, closePos = "%}", TOKEN_BLOCK_END, 2, p
+			} else if endPos1 != -1 && (endPos2 == -1 || endPos1 < endPos2) {
 				endTag = "%}"
 				endTagType = TOKEN_BLOCK_END
 				endTagLength = 2
@@ -499,7 +508,10 @@ func (t *ZeroAllocTokenizer) TokenizeHtmlPreserving() ([]Token, error) {
 		}
 
 		// Find position of the end tag
-		endPos := strings.Index(t.source[t.position:], endTag)
+		endPos := closePos
+		if endPos == -1 {
+			endPos = strings.Index(t.source[t.position:], endTag)
+		}
 		if endPos == -1 {
 			return nil, fmt.Errorf("unclosed tag at line %d", t.line)
 		}
@@ -1063,6 +1075,37 @@ func FindNextTag(source string, startPos int) TagLocation {
 	return TagLocation{TAG_NONE, -1, 0}
 }
 
+// findTagClose returns the position in s of the two bytes that close a print
+// tag (c == '}': "}}") or a block tag (c == '%': "%}"), or -1. The bytes inside
+// a quoted string and the braces of a hash literal are part of the expression:
+// {{ '}}' }}, {{ {'a': {'b': 1}} }} and {{ {'a': 1}}} end where they should.
+func findTagClose(s string, c byte) int {
+	depth := 0
+	for i := 0; i < len(s); i++ {
+		switch ch := s[i]; {
+		case ch == '\'' || ch == '"':
+			j := i + 1
+			for j < len(s) && s[j] != ch {
+				if s[j] == '\\' {
+					j++
+				}
+				j++
+			}
+			if j >= len(s) {
+				return -1 // no end of the string: leave it to the plain search
+			}
+			i = j
+		case ch == '{':
+			depth++
+		case ch == '}' && depth > 0:
+			depth--
+		case ch == c && depth == 0 && i+1 < len(s) && s[i+1] == '}':
+			return i
+		}
+	}
+	return -1
+}
+
 // FindTagEnd finds the end of a tag based on the type
 func FindTagEnd(source string, startPos int, tagType TagType) int {
 	if startPos >= len(source) {
@@ -1071,6 +1114,9 @@ func FindTagEnd(source string, startPos int, tagType TagType) int {
 
 	switch tagType {
 	case TAG_VAR, TAG_VAR_TRIM:
+		if p := findTagClose(source[startPos:], '}'); p >= 0 {
+			return startPos + p
+		}
 		// Find "}}" sequence
 		for i := startPos; i < len(source)-1; i++ {
 			if source[i] == '}' && source[i+1] == '}' {
@@ -1078,6 +1124,9 @@ func FindTagEnd(source string, startPos int, tagType TagType) int {
 			}
 		}
 	case TAG_BLOCK, TAG_BLOCK_TRIM:
+		if p := findTagClose(source[startPos:], '%'); p >= 0 {
+			return startPos + p
+		}
 		// Find "%}" sequence
 		for i := startPos; i < len(source)-1; i++ {
 			if source[i] == '%' && source[i+1] == '}' {
